@@ -105,7 +105,14 @@ class RetryDriver:
         kw = self._kwargs(delay_fn)
         sync = self.cfg["mode"] == "sync"
         with VClock(loop) as clock:
+            warm = ["caught", "ok"]      # the call made through the same wrapper object before the one under test
+
             def body():
+                if warm:
+                    o = warm.pop(0)
+                    if o == "ok":
+                        return "warm"
+                    raise EXC[o]("warm-up invocation")
                 k = len(marks) + 1
                 marks.append((loop.time(), len(clock.sleeps) if sync else timers[0]))
                 if k > len(script):
@@ -125,6 +132,12 @@ class RetryDriver:
                     return body()
 
             wrapped = retry(fn) if kw is None else retry(**kw)(fn)
+            # first use of the wrapper object: one caught failure, then success - nothing of it may carry over
+            try:
+                first = wrapped() if sync else loop.run_coro(wrapped())
+            except BaseException as e:  # noqa: BLE001
+                first = e
+            warm_ok = first == "warm" and not warm
             got = None
             try:
                 if sync:
@@ -159,6 +172,9 @@ class RetryDriver:
                         got = loop.run_coro(outer())
             finally:
                 loop.shutdown()
+        if not warm_ok:
+            return dict(status=f"the first call through the wrapper (one caught failure, then success) gave {first!r}",
+                        calls=-1, pauses=(), result=-1)
         if cancel_in_pause:
             calls = len(marks)
             pauses = tuple((marks[i + 1][1] - marks[i][1], marks[i + 1][0] - marks[i][0]) for i in range(len(marks) - 1))
